@@ -798,6 +798,8 @@ class Exec:
         cv = self.unit.module_consts.get(n, _MISSING)
         if cv is not _MISSING:
             return cv
+        if n in self.mi.consts and isinstance(self.mi.consts[n], (int, float, str, bool, type(None))):
+            return self.mi.consts[n]
         raise EngineError('unbound name %s at line %d in %s' % (n, node.lineno, self.unit.qualname))
 
     def import_value(self, dotted):
@@ -843,6 +845,8 @@ class Exec:
             if isinstance(cell, Obj):
                 if attr in cell.attrs:
                     return cell.attrs[attr]
+                if attr == '__class__':
+                    return FuncV('class', cell.cls)
                 if attr in LOGGER_METHODS:
                     return FuncV('logger', attr)
                 ci, fn = source.find_method(cell.cls, attr)
@@ -870,11 +874,19 @@ class Exec:
             return FuncV('absmethod', attr, self_val=base)
         if isinstance(base, ExcV):
             return '<exc-attr>'
+        if isinstance(base, FuncV) and base.kind == 'class' and attr == '__name__':
+            return base.target
         if isinstance(base, FuncV) and base.kind == 'class':
             # Class.method(self, ...) style or classmethod
             ci, fn = source.find_method(base.target, attr)
             if fn is not None:
                 return FuncV('method', (ci, fn), self_val=None)
+            cinfo = source.get_class(base.target)
+            if cinfo is not None:
+                for n in cinfo.node.body:
+                    if isinstance(n, ast.Assign) and any(isinstance(t, ast.Name) and t.id == attr for t in n.targets):
+                        # class-level constant (enum member): identified by its qualified name
+                        return '%s.%s' % (base.target, attr)
         if isinstance(base, str):
             return FuncV('strmeth', attr, self_val=base)
         if is_sym(base) or isinstance(base, (int, float)):
@@ -1023,6 +1035,10 @@ class Exec:
                     r = a is b
             elif isinstance(a, NanRef) or isinstance(b, NanRef):
                 r = isinstance(a, NanRef) and isinstance(b, NanRef) and a.ident == b.ident
+            elif isinstance(a, str) and isinstance(b, str):
+                r = a == b
+            elif isinstance(a, (bool, str)) or isinstance(b, (bool, str)):
+                r = (a is b) if not (is_sym(a) or is_sym(b)) else False
             else:
                 raise Unsupported('`is` on %r, %r' % (a, b))
             return r if isinstance(op, ast.Is) else (not r)
@@ -1643,6 +1659,8 @@ class Exec:
             return self.call_contract(u, args, kwargs, st, node)
         if f.kind == 'method':
             ci, fn = f.target
+            if ci.name == 'Logger' and fn.name == '__init__':
+                return None          # logging infrastructure: dropped like the logger calls
             qn = '%s:%s.%s' % (ci.modname, ci.name, fn.name)
             u = self.registry.get(qn)
             a = ([f.self_val] if f.self_val is not None else []) + args
